@@ -215,6 +215,43 @@ def run(res):
             res.violation("rejected-call-changed-files", "the bytes of the channel directory changed across a rejected call",
                           {"cfg": cfg.as_dict(), "ops": [list(o) for o in ops], "call": hook_state["bad"][0]}, "unchanged", "changed")
 
+    # ---- A2. block offsets against the number of SAMPLES whatever the form of the data: a complex single-subchannel
+    #      writer also takes N samples as a flat array of 2N interleaved reals; an offset in [N, 2N) is past the data
+    for t in range(12 if res.tier == "quick" else 100):
+        cfg = wl.gen_cfg(rng, modes=["cont", "gapped", "cont+comp"])
+        cfg = wl.Cfg(cfg.n, cfg.d, cfg.sc, cfg.fc, cfg.start, cfg.cont, cfg.comp, cfg.cksum, cfg.kind, cfg.size, cfg.order, True, 1)
+        chdir = os.path.join(work, "flat%d" % t, "ch")
+        os.makedirs(chdir)
+        w = wl.make_writer(cfg, chdir)
+        N = rng.choice([4, 9, 10])
+        first = wl.enc(cfg, range(1, N + 1))
+        flat = np.zeros((N, 2), dtype=cfg.realdtype)
+        flat[:, 0], flat[:, 1] = first["r"].reshape(-1), first["i"].reshape(-1)
+        flat = flat.reshape(-1)
+        w.rf_write_blocks(flat, [0], [0])
+        g0 = [w.get_next_available_sample(), w.get_total_samples_written(), w.get_total_gap_samples()]
+        h0 = tree_hash(chdir)
+        off = rng.choice([N, N + 1, 2 * N - 1])
+        hist = {"cfg": cfg.as_dict(), "flat_interleaved_samples": N, "call": ["rf_write_blocks", "2N reals", [N + 5, N + 5 + 40], [0, off]]}
+        res.case(("flat", cfg.key(), N, off), nontrivial=True)
+        res.count("flat-interleaved-offset-past-the-data")
+        try:
+            w.rf_write_blocks(flat, [N + 5, N + 5 + 40], [0, off])
+            outcome = "accepted"
+        except Exception as e:  # noqa
+            outcome = type(e).__name__
+        g1 = [w.get_next_available_sample(), w.get_total_samples_written(), w.get_total_gap_samples()]
+        if outcome == "accepted":
+            res.violation("call-that-must-be-rejected-accepted", "a block offset at or past the number of samples was accepted (the data "
+                          "was a flat array of 2N interleaved reals)", hist, "rejected with an error", outcome)
+        elif g1 != g0 or tree_hash(chdir) != h0:
+            res.violation("rejected-call-had-an-effect", "a rejected block write (offset past the data, flat interleaved input) changed "
+                          "the counters or the files", hist, [g0, "files unchanged"], [g1, "files %s" % ("unchanged" if tree_hash(chdir) == h0 else "changed")])
+        try:
+            w.close()
+        except Exception:  # noqa
+            pass
+
     # ---- B. C API
     capi_hist = []
     for i in range(nh):
